@@ -444,31 +444,43 @@ def check_sequence(ctx, FB, exp, rows):
         impl = f"{P}impls::<impl {ty}>::"
         fns = {p[len(impl):]: F.fn(p) for p in F.paths("fn") if p.startswith(impl)}
         try:
-            m = Mini(FB, "wow_world_messages")
-            u = m.call_fn(ty + "::new", [])
-            ev = Env(FB)
-            applied = []
-            for sname, fn in sorted(fns.items()):
-                if not sname.startswith("set_") or sname[4:] not in fns:
-                    continue
-                row = by_field.get(sname[4:])
-                if row is None or row["kind"] in ("ArrayOfStruct", "GuidArrayUsingEnum"):
-                    continue
-                args = [ev.value(t) for t in fn["inputs"][1:]]
-                m.call_fn(fn["path"], [u] + args)
-                applied.append((sname[4:], args, row))
-            for field, args, row in applied:
-                n += 1
-                res = Mini(FB, "wow_world_messages").call_fn(fns[field]["path"], [u])
-                want = args[0] if len(args) == 1 else tuple(args)
-                if not (isinstance(res, tuple) and res[0] == "Some" and equalish(res[1], want)):
-                    # who overwrote it?
+            base = sorted(fns.items())
+            orders = [("", base, 1)]
+            if ctx.tier == "thorough":
+                import random
+                sh = list(base)
+                random.Random(ctx.seed).shuffle(sh)
+                orders += [("|reverse", list(reversed(base)), 1), ("|shuffled-twice", sh, 2)]
+            for otag, order, reps in orders:
+                m = Mini(FB, "wow_world_messages")
+                u = m.call_fn(ty + "::new", [])
+                ev = Env(FB)
+                applied = {}
+                for _rep in range(reps):
+                    for sname, fn in order:
+                        if not sname.startswith("set_") or sname[4:] not in fns:
+                            continue
+                        row = by_field.get(sname[4:])
+                        if row is None or row["kind"] in ("ArrayOfStruct", "GuidArrayUsingEnum"):
+                            continue
+                        args = [ev.value(t) for t in fn["inputs"][1:]]
+                        m.call_fn(fn["path"], [u] + args)
+                        applied[sname[4:]] = (args, row)  # the last value set is the one a getter must return
+                items = [(f, a, r) for f, (a, r) in applied.items()]
+                for field, args, row in items:
+                    n += 1
                     lo, hi = row["offset"], row["offset"] + row["size"]
-                    culprits = [f for f, _a, r2 in applied if f != field and r2["offset"] < hi and lo < r2["offset"] + r2["size"]]
-                    ctx.violate("um.sequence", f"{exp}|{kind}|{field}", f"{exp} Update{kind}: after setting every typed field once, {field}() no longer returns the value given to set_{field} "
-                                f"({'overwritten by ' + ', '.join('set_' + c for c in culprits[:3]) if culprits else 'returns ' + show(res)})", fns[field]["file"], fns[field]["line"])
-            # the fully populated object on the wire (every simple field present and dirty, so every block position is exercised)
-            wire_form(ctx, Mini(FB, "wow_world_messages"), u, exp, kind, P, ty, f"{exp}|{kind}|full", what=" of an object with every simple typed field set")
+                    culprits = [f for f, _a, r2 in items if f != field and r2["offset"] < hi and lo < r2["offset"] + r2["size"]]
+                    if otag and culprits:
+                        continue  # overlapping rows are reported once, through the canonical order and um.table3
+                    res = Mini(FB, "wow_world_messages").call_fn(fns[field]["path"], [u])
+                    want = args[0] if len(args) == 1 else tuple(args)
+                    if not (isinstance(res, tuple) and res[0] == "Some" and equalish(res[1], want)):
+                        ctx.violate("um.sequence", f"{exp}|{kind}|{field}{otag}", f"{exp} Update{kind}: after setting every typed field{' (history' + otag.replace('|', ' ') + ')' if otag else ' once'}, {field}() no longer returns "
+                                    f"the value last given to set_{field} ({'overwritten by ' + ', '.join('set_' + c for c in culprits[:3]) if culprits else 'returns ' + show(res)})", fns[field]["file"], fns[field]["line"])
+                if not otag:
+                    # the fully populated object on the wire (every simple field present and dirty, so every block position is exercised)
+                    wire_form(ctx, Mini(FB, "wow_world_messages"), u, exp, kind, P, ty, f"{exp}|{kind}|full", what=" of an object with every simple typed field set")
         except (Unsupported, Panic) as e:
             ctx.violate("um.sequence", f"{exp}|{kind}|shape", f"{exp} Update{kind}: sequence interpretation failed — review ({e})")
     return n
@@ -484,6 +496,8 @@ def check_read_inner(ctx, FB):
         ctx.violate("um.wire", "anchor|read_inner", "inners::read_inner not found (anchor disappeared)")
         return 0
     pats = [[1 << i] for i in range(32)] + [[0], [0xFFFFFFFF], [0x80000001], [0x00010100], [0, 1 << 31], [1 << 31, 1], [5, 0, 0x80000000]]
+    if ctx.tier == "thorough":
+        pats += [[(1 << i) | (1 << j)] for i in range(32) for j in range(i + 1, 32)] + [[1 << i, 1 << j] for i in (0, 15, 31) for j in (0, 16, 31)]
     n = 0
     for blocks in pats:
         n += 1
@@ -533,6 +547,8 @@ def check_write_inner(ctx, FB):
         ctx.violate("um.wire", "anchor|write_inner", "inners::write_into_vec / update_mask_size not found (anchor disappeared)")
         return 0
     hdrs = [[1 << i] for i in range(32)] + [[0], [0xFFFFFFFF], [0x80000001], [0x00010100], [0, 1 << 31], [1 << 31, 1], [5, 0, 0x80000000], [0xFFFFFFFF, 0xFFFFFFFF]]
+    if ctx.tier == "thorough":
+        hdrs += [[(1 << i) | (1 << j)] for i in range(32) for j in range(i + 1, 32)] + [[1 << i, 1 << j] for i in (0, 15, 31) for j in (0, 16, 31)]
     n = 0
     for hdr in hdrs:
         for dmode in ("all", "none", "alt", "hi"):
